@@ -74,6 +74,16 @@ theorem incCount_adv (c : Cfg) (k : Comp) (b : Bytes) : Adv b (b.incCount c k) 0
   · exact Adv.refl b
   · cases k <;> exact ⟨rfl, rfl⟩
 
+/-- the `for _ in 0..8 { iter.increment_count() }` of the multi-digit fast paths moves nothing -/
+theorem incCountFold_adv (c : Cfg) (k : Comp) : ∀ (l : List Nat) (b : Bytes),
+    Adv b (l.foldl (fun b _ => b.incCount c k) b) 0 := by
+  intro l
+  induction l with
+  | nil => intro b; exact Adv.refl b
+  | cons x xs ih =>
+    intro b
+    simpa using (incCount_adv c k b).trans (ih (b.incCount c k))
+
 theorem stepUnchecked_rel (c : Cfg) (contig : Bool) (b : Bytes) (hd : c.debug = false) :
     b.stepUnchecked c contig = .ok { b with index := b.index + 1 } := by
   simp [Bytes.stepUnchecked, Bytes.stepBy, hd]
@@ -214,9 +224,11 @@ theorem parse8Loop_spec {c : Cfg} (hn : NoSep c) (hd : c.debug = false) (k : Com
       by_cases h8 : is8Digits c.mantissaRadix bs = true
       · simp only [h8, if_true, Bytes.stepBy, hd, Bool.false_and, Bool.false_eq_true, if_false]
         have hlen : (tl b).length = b.slc.length - b.index := by simp [tl]
-        obtain ⟨m', b', n, h1, h2, h3⟩ := ih { b with index := b.index + 8 }
-          ((m * radix8 c.mantissaRadix + val8Digits c.mantissaRadix bs) % pow2_64) (by simp only; omega)
-        have hadv : Adv b { b with index := b.index + 8 } 8 := ⟨rfl, rfl⟩
+        have hinc := incCountFold_adv c k (List.range 8) { b with index := b.index + 8 }
+        have hadv : Adv b ((List.range 8).foldl (fun b _ => b.incCount c k) { b with index := b.index + 8 }) 8 := by
+          simpa using Adv.trans (⟨rfl, rfl⟩ : Adv b { b with index := b.index + 8 } 8) hinc
+        obtain ⟨m', b', n, h1, h2, h3⟩ := ih ((List.range 8).foldl (fun b _ => b.incCount c k) { b with index := b.index + 8 })
+          ((m * radix8 c.mantissaRadix + val8Digits c.mantissaRadix bs) % pow2_64) (by rw [hadv.1, hadv.2]; omega)
         have hsk := takeDigits_skip c.mantissaRadix 8 (tl b) hpb.2
           (by rw [← hpb.1]; exact is8Digits_digit _ hr bs h8)
         rw [hadv.tl] at h3
